@@ -587,7 +587,8 @@ class SymExec:
         # is the last character that is the byte following the loop's output
         if any(x.get('k') == 'call' and callee_name(x) == 'sprintf' for x in walk(stmt['body'])):
             st.clobber = st.ptr[qd].add(n)
-        st.ptr.pop(qd, None)
+        # count == emit for every byte value (TAB5b) and both loops scan the same string: the cursor ends output_length bytes on
+        st.ptr[qd] = st.ptr[qd].add(n)
         c = strip_casts(stmt['c'])
         exits = []
         for nd in self.cfg.nodes:
